@@ -330,7 +330,7 @@ pub fn op_is_safe(sc: &Scenario, m: Option<&Model>, op: &Op) -> bool {
                 Some(m) => m,
                 None => return false,
             };
-            if sc.kind == Kind::Fixed && !offsets_ok(*doff, *eoff) {
+            if sc.kind == Kind::Fixed && !offsets_ok(*doff, *eoff) && !absurd_offsets(*doff, *eoff) {
                 return false;
             }
             let prog = match sc.progs.get(*pid) {
@@ -379,6 +379,11 @@ pub fn op_is_safe(sc: &Scenario, m: Option<&Model>, op: &Op) -> bool {
         }
         Op::ArmVeto | Op::ArmAllocFail | Op::ArmMprotectFail | Op::Repeat { .. } => m.is_some(),
     }
+}
+
+/// Offsets whose buffer size (max + 8) does not fit a usize: only ever offered to set_program.
+pub fn absurd_offsets(doff: usize, eoff: usize) -> bool {
+    doff.max(eoff).checked_add(8).is_none()
 }
 
 pub fn offsets_ok(doff: usize, eoff: usize) -> bool {
@@ -1545,11 +1550,28 @@ impl<'s> Runner<'s> {
                 if veto && !harness_verifier {
                     self.counters.inc("veto_armed_but_builtin_verifier_in_force");
                 }
-                let predicted_ok = m.load_accepted(prog) && !veto_fires;
+                let absurd = self.sc.kind == Kind::Fixed && absurd_offsets(*doff, *eoff);
+                let predicted_ok = m.load_accepted(prog) && !veto_fires && !absurd;
                 if !predicted_ok {
                     self.sweep(at, Some(""))?;
                 }
                 let bytes: &[u8] = unsafe { std::slice::from_raw_parts(self.arena.progs[*pid].as_ptr(), self.arena.progs[*pid].len()) };
+                if absurd {
+                    // no buffer can be built for these offsets: an error is fine (and must change
+                    // nothing); anything else - the unchanged code panics on the overflowing sum - is
+                    // not something C10 speaks about, and the VM may be half-updated: start over
+                    self.counters.inc("set_program_with_offsets_no_buffer_fits");
+                    let o = self.vm.as_mut().unwrap().set_program(bytes, *doff, *eoff);
+                    tls(|t| t.verifier_log.clear());
+                    self.log.byte(o.code());
+                    self.t(|| format!("[{}] set_program(prog#{}, {:#x}, {:#x}) -> {}", at, pid, doff, eoff, o.short()));
+                    if o.is_err() {
+                        self.note_state(op, 1);
+                        self.last_fail_then_exec = true;
+                        return self.sweep(at, Some("set_program"));
+                    }
+                    return Err(Stop::Abort(format!("set_program with offsets no buffer fits -> {}", o.short())));
+                }
                 if repeat > 1 && predicted_ok {
                     for k in 1..repeat {
                         let o = self.vm.as_mut().unwrap().set_program(bytes, *doff, *eoff);
